@@ -729,6 +729,14 @@ class Bubble(Box):
         """ The diagram inside a bubble. """
         return self._inside
 
+    def __eq__(self, other):
+        if isinstance(other, Bubble):
+            return self.inside == other.inside and super().__eq__(other)
+        return super().__eq__(other)
+
+    def __hash__(self):
+        return hash(repr(self))
+
     def __str__(self):
         return "({}).bubble({})".format(
             self.inside,
